@@ -60,32 +60,42 @@ def uintLoop (base : Nat) : List Char → Nat → Option Nat
       | none => none
       | some d => if d ≥ base then none else uintLoop base cs (n * base + d)
 
-/-- `strconv.ParseInt(s, 0, bits)`; `none` = any error (syntax or range) -/
-def parseIntBase0 (bits : Nat) (s : List Char) : Option Int :=
-  let (neg, body) := match s with
-    | '+' :: r => (false, r)
-    | '-' :: r => (true, r)
-    | r => (false, r)
+/-- base-prefix detection of `ParseUint(s, 0, …)` on `c0 :: r0`: the base and the digits -/
+def basePrefix (c0 : Char) (r0 : List Char) : Nat × List Char :=
+  if c0 = '0' then
+    match r0 with
+    | c1 :: r1 =>
+      let lc := Lex.lowerBit c1
+      if r1 ≠ [] && lc = 'b' then (2, r1)
+      else if r1 ≠ [] && lc = 'o' then (8, r1)
+      else if r1 ≠ [] && lc = 'x' then (16, r1)
+      else (8, r0)
+    | [] => (8, r0)
+  else (10, c0 :: r0)
+
+/-- the range check of `ParseInt` on the magnitude `n` -/
+def intRange (bits : Nat) (neg : Bool) (n : Nat) : Option Int :=
+  if neg then (if n > 2 ^ (bits - 1) then none else some (-(n : Int)))
+  else (if n ≥ 2 ^ (bits - 1) then none else some (n : Int))
+
+/-- `strconv.ParseInt(s, 0, bits)` after the sign has been taken off: `ParseUint(body, 0, bits)`
+    with base prefix detection, then the range check of `ParseInt` -/
+def parseIntCore (bits : Nat) (neg : Bool) (body : List Char) : Option Int :=
   match body with
   | [] => none
   | c0 :: r0 =>
-    let (base, digs) :=
-      if c0 = '0' then
-        match r0 with
-        | c1 :: r1 =>
-          let lc := Lex.lowerBit c1
-          if r1 ≠ [] && lc = 'b' then (2, r1)
-          else if r1 ≠ [] && lc = 'o' then (8, r1)
-          else if r1 ≠ [] && lc = 'x' then (16, r1)
-          else (8, r0)
-        | [] => (8, r0)
-      else (10, body)
-    match uintLoop base digs 0 with
+    match uintLoop (basePrefix c0 r0).1 (basePrefix c0 r0).2 0 with
     | none => none
     | some n =>
       if body.contains '_' && !Decimal.underscoreOK body then none
-      else if neg then (if n > 2 ^ (bits - 1) then none else some (-(n : Int)))
-      else (if n ≥ 2 ^ (bits - 1) then none else some (n : Int))
+      else intRange bits neg n
+
+/-- `strconv.ParseInt(s, 0, bits)`; `none` = any error (syntax or range) -/
+def parseIntBase0 (bits : Nat) (s : List Char) : Option Int :=
+  match s with
+  | '+' :: r => parseIntCore bits false r
+  | '-' :: r => parseIntCore bits true r
+  | r => parseIntCore bits false r
 
 /-- `strconv.ParseInt(s, 0, 64)` -/
 def parseInt0 (s : List Char) : Option Int := parseIntBase0 64 s
